@@ -29,7 +29,7 @@ func (check) Cases(tier string) int {
 }
 
 func (check) Rule() string {
-	return "a source config (root, child or grand-child handle; half of them with ${...} references to their own root, a third with references to whole objects/lists of their own tree; half of them with a prior history of Remove/Set/drain-a-container/grow-and-shrink operations, so that emptied objects and lists, detached spellings and re-set values occur) is merged into a destination (empty or a mutation of the source tree, half of these with references to their own objects at keys the source also defines, a third with a prior history) directly, or embedded in a map, a nested map, a slice (twice), a struct field of type *Config or Config, under one of 5 policies, through Config.Merge or (1 of 4 cases) through a cfgutil.Collector (started with nil, an empty or a filled config) that 0-3 further *Config sources are added to before/after the source, each of them held to the same invariants; a fifth of the source roots and the destinations they meet are list-shaped (top-level lists, generated, with ${0}-style references to their own entries), a tenth of all destinations are lists; the non-evaluating fingerprint of the source's whole root tree (node addresses, stored field names, parent links, values, unresolved expressions) and its public reads (Path, Parent, Unpack with its own references) are compared before/after; node address sets of source and destination must be disjoint and no parent link of a destination node may name a config of a source; then (2 of 3 cases) every container of one or both sides receives a probe write (new key / appended element) and then a history of 1-12 Set*/Remove/Merge/SetChild operations (also through flag.NewFlagKeyValue(side).Set and Collector.Add; addresses from a fixed pool and from the trees as they are now; up to 2 of the merges take the OTHER side, directly or embedded, as their source) is applied to one side while the other side's fingerprint and unpack must stay constant and the address sets stay disjoint after every step. Non-trivial = source has >= 3 nodes and the history performed >= 1 successful mutation; distinct = distinct (source, placement, policy, history)."
+	return "a source config (root, child or grand-child handle; half of them with ${...} references to their own root, a third with references to whole objects/lists of their own tree; half of them with a prior history of Remove/Set/drain-a-container/grow-and-shrink operations, so that emptied objects and lists, detached spellings and re-set values occur) is merged into a destination (empty or a mutation of the source tree, half of these with references to their own objects at keys the source also defines, a third with a prior history) directly, or embedded in a map, a nested map, a slice (twice), a struct field of type *Config or Config, under one of 5 policies, through Config.Merge or (1 of 4 cases) through a cfgutil.Collector (started with nil, an empty or a filled config) that 0-3 further *Config sources are added to before/after the source, each of them held to the same invariants; a fifth of the source roots and the destinations they meet are list-shaped (top-level lists, generated, with ${0}-style references to their own entries), a tenth of all destinations are lists; the non-evaluating fingerprint of the source's whole root tree (node addresses, stored field names, parent links, values, unresolved expressions) and its public reads (Path, Parent, Unpack with its own references) are compared before/after; node address sets of source and destination must be disjoint and no parent link of a destination node may name a config of a source; then (2 of 3 cases) every container of one or both sides receives a probe write (new key / appended element) and then a history of 1-12 Set*/Remove/Merge/SetChild operations (also through flag.NewFlagKeyValue(side).Set and Collector.Add; addresses from a fixed pool and from the trees as they are now; up to 2 of the merges take the OTHER side, directly or embedded, as their source) is applied to one side while the other side's fingerprint and unpack must stay constant and the address sets stay disjoint after every step. Second part of every case: source and destination are parts of ONE tree (source a child of the destination, an ancestor of it, the destination itself, a sibling subtree; dict- and list-shaped trees, direct or in a map, 5 policies, with/without MetaData, a third with a prior history): the tree must end as the same merge between two identical separate trees ends (3 repetitions on fresh identical trees must agree with it and with each other), sibling sources keep their fingerprint and share nothing with the destination. A quarter of the sources are built with MetaData, a third of the merges carry the MetaData option. Non-trivial = source has >= 3 nodes and the history performed >= 1 successful mutation; distinct = distinct (source, placement, policy, history)."
 }
 
 func (check) Assumptions() []string {
@@ -37,6 +37,10 @@ func (check) Assumptions() []string {
 		"the VerifWalk hook exposes stored state faithfully without evaluating it",
 		"sharing of immutable parts (*Meta records, parsed expression trees) between copies is by design and not checked; only Config nodes, fields tables and value cells are",
 		"not demanded: independence of *Config values captured by Unpack into a *Config field (documented as capturing a reference)",
+		"a source that is a part of the tree merged into (child or ancestor of the destination, the destination itself) is inside the property: 'merging from a config' merges what the config holds when Merge is called, so the tree must end as if an untouched copy of it had supplied the source (differential twin); where that leaves the source's part of the tree as it was, the source must not have moved; sibling subtrees are held to the plain statement (source fingerprint constant, nothing shared)",
+		"the MetaData option of a Merge is a statement about the destination: the metadata source of every node of the operand is part of the source's fingerprint",
+		"not generated: cyclic Config graphs built through the API (SetChild of an ancestor root; audit item 2): the Merge documentation excludes cyclic structures and the statement is about what a merge does to source and destination, not about refusing malformed operands; surviving them is C07's subject",
+		"not judged: what an inlined list-shaped *Config contributes to the destination (audit item 3): the source stays untouched, the result of normalization is C05's subject",
 	}
 }
 
